@@ -99,6 +99,9 @@ fn oracle_direct(out: &mut Out, fi: usize, w: u32, h: u32, q: usize, dither: usi
     }
 }
 
+/// what the encoder reports as its next surface (None when done): a call that is refused must not change it
+fn file_len_probe<W: std::io::Write>(enc: &Encoder<W>) -> Option<(Size, bool)> { enc.surface_info().map(|s| (s.size(), enc.is_done())) }
+
 /// `cancel_at_full`: cancellation was requested at a report that already said 100% (the outcome of such a
 /// call is not specified: the documentation allows several reports of 100%)
 fn check_reports(what: &str, r: &RunResult, cancel_at_full: bool) { check_reports_x(what, r, cancel_at_full, true) }
@@ -147,10 +150,26 @@ fn oracle(out: &mut Out, fi: usize, w: u32, h: u32, mips: bool, q: usize, parall
         enc.options = opts.clone();
         enc.mipmaps.generate = mips;
         let view = ImageView::new(&data, Size::new(w, h), ColorFormat::RGBA_U8).unwrap();
-        let mut rep = |_p: f32| {};
-        let first = { let mut progress = Progress::new(&mut rep).with_cancellation(&token); enc.write_surface_with_progress(view, &mut progress) };
+        // ONE Progress object for both calls (a failed call must not leave it in a narrowed range); the first, pre-cancelled
+        // call is also made with a token-only Progress (cancellation without a reporter)
+        let seen: Arc<Mutex<Vec<f32>>> = Arc::new(Mutex::new(Vec::new()));
+        let s2 = seen.clone();
+        let mut rep = move |p: f32| { s2.lock().unwrap().push(p); };
+        let before = file_len_probe(&enc);
+        let token_only = { let mut progress = Progress::none().with_cancellation(&token); enc.write_surface_with_progress(view, &mut progress) };
+        if !matches!(token_only, Err(EncodingError::Cancelled)) || file_len_probe(&enc) != before {
+            println!("IMPL-VIOLATION a pre-cancelled call with a token-only Progress returned {:?} / moved the encoder: {what}", token_only.as_ref().map(|_| "Ok"));
+        }
+        let mut progress = Progress::new(&mut rep).with_cancellation(&token);
+        let first = enc.write_surface_with_progress(view, &mut progress);
         token.reset();
-        let second = { let mut progress = Progress::new(&mut rep).with_cancellation(&token); enc.write_surface_with_progress(view, &mut progress) };
+        let second = enc.write_surface_with_progress(view, &mut progress);
+        drop(progress);
+        {
+            let reports = seen.lock().unwrap().clone();
+            let rr = RunResult { reports, result: match &second { Ok(()) => Ok(()), Err(_) => Err(EncodingError::Cancelled) }, bytes: Vec::new() };
+            check_reports(&format!("{what} (retry with the same Progress object)"), &rr, false);
+        }
         let done = enc.is_done() || mips == false && enc.surface_info().is_none();
         let fin = enc.finish();
         if !matches!(first, Err(EncodingError::Cancelled)) || second.is_err() || fin.is_err() || !done || file != base.bytes {
